@@ -554,7 +554,7 @@ fn main() {
 
     // envelope: format x channels x detector x pattern x schedule variant
     let mut jobs = Vec::new();
-    let variants = cli.t(4usize, 100usize);
+    let variants = cli.t(4usize, 400usize);
     for fi in 0..6 {
         for ch in [1usize, 2] {
             for det in 0..6 {
